@@ -269,7 +269,9 @@ class boo_3d:
                 sij[i, :Neighborlist[i, 0]] = sijup.real / sijdown
 
             sijresults[:, 0] = np.arange(self.nparticle) + 1
-            sijresults[:, 1] = (np.where(sij > c, 1, 0)).sum(axis=1)
+            # count only the listed neighbors: the unused (zero-padded) slots of sij are not bonds
+            listed = np.arange(self.Nmax)[np.newaxis, :] < Neighborlist[:, 0][:, np.newaxis]
+            sijresults[:, 1] = (listed & (sij > c)).sum(axis=1)
             sijresults[:, 2] = Neighborlist[:, 0]
             results.append(sijresults)
             resultssij.append(np.column_stack(
